@@ -456,7 +456,7 @@ def case_script(case):
 
 
 def campaign(ctx):
-    n = {"quick": 220, "thorough": 3000}[ctx.tier]
+    n = {"quick": 500, "thorough": 3000}[ctx.tier]
     runner.run_hypothesis(ctx, case_strategy(ctx.tier), runner.guarded(run_case), n)
 
 
